@@ -26,6 +26,12 @@ def run(report, db, tier):
     r2(report, db, cg, M)
     r3(report, db, cg, M)
     r4(report, db, cg, M)
+    from .. import shared
+    R5 = report.rule('R12.5', 'what is queued belongs to one connection: '
+                     '_connect starts from an empty, unbounded outgoing '
+                     'queue')
+    shared.fresh_connection_state(report, R5, db, shared.summariser(db, cg),
+                                  M, ('queue',))
 
 
 # ---------------------------------------------------------------------------
@@ -98,9 +104,21 @@ def r1(report, db, cg, M):
             ok = True
         elif kind.startswith('method:'):
             m = kind.split(':')[1]
-            if m in ('shutdown', 'close', 'connect', 'makefile', 'fileno',
-                     'settimeout', 'setsockopt', 'getpeername',
-                     'getsockname'):
+            if m in ('shutdown', 'close'):
+                # tearing the socket down is atomic with respect to a frame
+                # only under the write lock (a frame is two sends)
+                held = M.held_at_entry()
+                if held.get(fi) or M.site_in_lock(fi, node):
+                    ok = True
+                else:
+                    why = ('.%s() on the connection socket outside the write '
+                           'lock: it can land between the two sends of a '
+                           'frame another thread is writing, which leaves a '
+                           'length prefix without its payload on the wire'
+                           % m)
+            elif m in ('connect', 'makefile', 'fileno',
+                       'settimeout', 'setsockopt', 'getpeername',
+                       'getsockname'):
                 ok = True
             else:
                 why = ('calls .%s() on the connection socket outside the '
